@@ -1097,6 +1097,7 @@ class RemotePool(AbstractPool):
         self._pool_addr = address
         self._worker = None
         self._sync_lock = asyncio.Lock()
+        self._sync_lock_owner = None
         self._semaphore = asyncio.BoundedSemaphore(pool_size)
         self._pool_size = pool_size
         secret = os.environ.get("_EDGEDB_SERVER_COMPILER_POOL_SECRET")
@@ -1204,7 +1205,9 @@ class RemotePool(AbstractPool):
         return await self._worker
 
     def _release_worker(self, worker, *, put_in_front: bool = True):
-        if self._sync_lock.locked():
+        # Only the call that is syncing state may end the sync.
+        if self._sync_lock_owner is asyncio.current_task():
+            self._sync_lock_owner = None
             self._sync_lock.release()
         self._semaphore.release()
 
@@ -1245,13 +1248,20 @@ class RemotePool(AbstractPool):
             self._release_worker(worker)
 
     async def _compute_compile_preargs(self, *args):
-        preargs, callback = await super()._compute_compile_preargs(*args)
-        if callback:
-            del preargs, callback
-            await self._sync_lock.acquire()
+        # All calls share one remote worker.  While a call that carries new
+        # state is in flight, what the compiler server holds when a later
+        # request arrives is not what is recorded here yet, so wait for it.
+        await self._sync_lock.acquire()
+        try:
             preargs, callback = await super()._compute_compile_preargs(*args)
-            if not callback:
-                self._sync_lock.release()
+        except BaseException:
+            self._sync_lock.release()
+            raise
+        if callback:
+            # held until _release_worker() of this call
+            self._sync_lock_owner = asyncio.current_task()
+        else:
+            self._sync_lock.release()
         return preargs, callback
 
     def get_debug_info(self):
